@@ -318,10 +318,57 @@ func gStable(c *Check) {
 			first = st.Instr
 		}
 	}
+	// the drop may live in a helper called on the same receiver: the guards are then required at
+	// the call, and the helper's stores are read through the parameter binding
+	var hfi *FuncInfo
+	var hmap map[ssa.Value]*Sym
+	if first == nil {
+		for _, in := range p.liveInstrsOf(stableTo) {
+			ci, ok := in.(ssa.CallInstruction)
+			if !ok {
+				continue
+			}
+			callee := ci.Common().StaticCallee()
+			if callee == nil || callee.Blocks == nil || callee.Signature.Recv() == nil || callee == maybeTerm {
+				continue
+			}
+			args := callArgs(ci)
+			if len(args) != len(callee.Params) || len(args) == 0 || fi.Sym(args[0]).Key() != fi.Sym(stableTo.Params[0]).Key() {
+				continue
+			}
+			var hs []FieldStore
+			for _, f := range []*types.Var{entF, offF} {
+				for _, st := range p.StoresTo(f) {
+					if st.Fn == callee && !st.Whole {
+						hs = append(hs, st)
+					}
+				}
+			}
+			if len(hs) == 0 {
+				continue
+			}
+			stores, first = hs, in
+			hfi = p.Info(callee)
+			hmap = map[ssa.Value]*Sym{}
+			for i, prm := range callee.Params {
+				hmap[prm] = fi.Sym(args[i])
+			}
+			break
+		}
+	}
+	valOf := func(st FieldStore) *Sym {
+		if hfi != nil {
+			return resimplify(Subst(hfi.Sym(st.Val), hmap))
+		}
+		return fi.Sym(st.Val)
+	}
 	if first == nil {
 		c.Bad(rule+".guard", "stores in unstable.stableTo", fnName(stableTo), p.Pos(stableTo.Pos()), "stableTo drops the acknowledged prefix", "no store to entries/offset found")
 	} else {
 		for _, st := range stores {
+			if hfi != nil {
+				continue // inside the helper, behind the guarded call
+			}
 			if st.Instr != first && !fi.InstrDominates(first, st.Instr) {
 				c.Bad(rule+".guard", "store in unstable.stableTo outside the guarded path", fnName(stableTo), p.site(st.Instr), "all drops happen on the one guarded path", "store not dominated by the guarded store")
 			}
@@ -345,7 +392,7 @@ func gStable(c *Check) {
 			}
 			fa := st.Addr.(*ssa.FieldAddr)
 			fld := derefStruct(fa.X.Type()).Field(fa.Field)
-			v := fi.Sym(st.Val)
+			v := valOf(st)
 			if fld == offF {
 				d := LinOf(v)
 				d.add(LinOf(FieldOf(id, eidI)), -1)
